@@ -133,14 +133,14 @@ queue type (`2 * n`), and `extend` when it chooses to rebuild (`2 * (final size)
 result starts from that of the larger of the two queues (they are swapped first), hence the `max`. -/
 theorem C05_pq_bulk_linear :
     (∀ (v : Array (Item × P)) (s' : Store P), MaxQ.fromVec v = .ok s' → s'.ticks ≤ 2 * s'.size ∧ s'.ticks ≤ 2 * v.size) ∧
-    (∀ (v : Array (Item × P)) (s' : Store P), MaxQ.fromIter v = .ok s' → s'.ticks ≤ 2 * s'.size ∧ s'.ticks ≤ 2 * v.size) ∧
-    (∀ (v : Array (Item × P)) (s' : Store P), MaxQ.deserialize v = .ok s' → s'.ticks ≤ 2 * s'.size ∧ s'.ticks ≤ 2 * v.size) ∧
+    (∀ (lo : Nat) (v : Array (Item × P)) (s' : Store P), MaxQ.fromIter lo v = .ok s' → s'.ticks ≤ 2 * s'.size ∧ s'.ticks ≤ 2 * v.size) ∧
+    (∀ (hint : Option Nat) (v : Array (Item × P)) (s' : Store P), MaxQ.deserialize hint v = .ok s' → s'.ticks ≤ 2 * s'.size ∧ s'.ticks ≤ 2 * v.size) ∧
     (∀ (s s' : Store P) f, MaxQ.retainMut s f = .ok s' → s'.ticks ≤ s.ticks + 2 * s'.size) ∧
     (∀ (s s' : Store P), MaxQ.ofStore s = .ok s' → s'.ticks ≤ s.ticks + 2 * s.size) ∧
     (∀ (s o s' o' : Store P), MaxQ.append s o = .ok (s', o') → s'.ticks ≤ max s.ticks o.ticks + 2 * s'.size) ∧
     (∀ (s s' : Store P) xs, MaxQ.heapBuild (s.extend xs) = .ok s' →
         s'.ticks ≤ s.ticks + 2 * s'.size ∧ s'.size ≤ s.size + xs.size) := by
-  refine ⟨fun v s' h => ?_, fun v s' h => ?_, fun v s' h => ?_, fun s s' f h => MaxQ.retainMut_cost h,
+  refine ⟨fun v s' h => ?_, fun lo v s' h => ?_, fun hint v s' h => ?_, fun s s' f h => MaxQ.retainMut_cost h,
     fun s s' h => (MaxQ.ofStore_cost h).2, fun s o s' o' h => MaxQ.append_cost h,
     fun s s' xs h => ⟨(MaxQ.extend_rebuild_cost h).2, (MaxQ.extend_rebuild_cost h).1⟩⟩
   · obtain ⟨a, b⟩ := MaxQ.fromVec_cost h; exact ⟨b, by omega⟩
@@ -287,14 +287,14 @@ example : ticksOf' (DQ.heapBuild { d6 with heap := #[5, 4, 3, 2, 1, 0], qp := #[
 /-- **the bulk operations are linear** (same list as for `PriorityQueue`, constant 7 instead of 2) -/
 theorem C05_dpq_bulk_linear :
     (∀ (v : Array (Item × P)) (s' : Store P), DQ.fromVec v = .ok s' → s'.ticks ≤ 7 * s'.size ∧ s'.ticks ≤ 7 * v.size) ∧
-    (∀ (v : Array (Item × P)) (s' : Store P), DQ.fromIter v = .ok s' → s'.ticks ≤ 7 * s'.size ∧ s'.ticks ≤ 7 * v.size) ∧
-    (∀ (v : Array (Item × P)) (s' : Store P), DQ.deserialize v = .ok s' → s'.ticks ≤ 7 * s'.size ∧ s'.ticks ≤ 7 * v.size) ∧
+    (∀ (lo : Nat) (v : Array (Item × P)) (s' : Store P), DQ.fromIter lo v = .ok s' → s'.ticks ≤ 7 * s'.size ∧ s'.ticks ≤ 7 * v.size) ∧
+    (∀ (hint : Option Nat) (v : Array (Item × P)) (s' : Store P), DQ.deserialize hint v = .ok s' → s'.ticks ≤ 7 * s'.size ∧ s'.ticks ≤ 7 * v.size) ∧
     (∀ (s s' : Store P) f, DQ.retainMut s f = .ok s' → s'.ticks ≤ s.ticks + 7 * s'.size) ∧
     (∀ (s s' : Store P), DQ.ofStore s = .ok s' → s'.ticks ≤ s.ticks + 7 * s.size) ∧
     (∀ (s o s' o' : Store P), DQ.append s o = .ok (s', o') → s'.ticks ≤ max s.ticks o.ticks + 7 * s'.size) ∧
     (∀ (s s' : Store P) xs, DQ.heapBuild (s.extend xs) = .ok s' →
         s'.ticks ≤ s.ticks + 7 * s'.size ∧ s'.size ≤ s.size + xs.size) := by
-  refine ⟨fun v s' h => ?_, fun v s' h => ?_, fun v s' h => ?_, fun s s' f h => DQ.retainMut_cost h,
+  refine ⟨fun v s' h => ?_, fun lo v s' h => ?_, fun hint v s' h => ?_, fun s s' f h => DQ.retainMut_cost h,
     fun s s' h => (DQ.ofStore_cost h).2, fun s o s' o' h => DQ.append_cost h,
     fun s s' xs h => ⟨(DQ.extend_rebuild_cost h).2, (DQ.extend_rebuild_cost h).1⟩⟩
   · obtain ⟨a, b⟩ := DQ.fromVec_cost h; exact ⟨b, by omega⟩
